@@ -7,7 +7,7 @@ for d in sorted(glob.glob(os.path.join(HERE, 'seeded', '*'))):
     if not os.path.exists(mp):
         continue
     m = json.load(open(mp))
-    first = 'caught as committed' if m['result'].startswith('caught') else 'missed -> check strengthened -> caught'
+    first = 'caught as committed' if m['result'].lower().startswith('caught') else 'missed -> check strengthened -> caught'
     rows.append('| %s | %s | %s | %s | `%s` |' % (m['seed'], m['property'], (m.get('summary') or '').replace('|', '/').replace('\n', ' ')[:230],
                                              first, (m.get('detected_as') or '').replace('|', '/')[:150]))
 table = ['| Seed | Property | Change (independent sub-agent, given only the property text) | Outcome | Detected as |', '|---|---|---|---|---|'] + rows
